@@ -6,7 +6,7 @@
    copies of capture binding, regex-capture lookup and scan-arm selection compute the same thing, and the
    lazy store's forcing discipline (a thunk is forced at most once, every reader sees one value).
    The whole-run statements are explored by the direct strict-vs-lazy stream and both correspondence streams. *)
-From TSG Require Import Model.Strict Model.Lazy Proofs.Captures Proofs.MonadFacts.
+From TSG Require Import Model.Strict Model.Lazy Model.Run Proofs.Captures Proofs.MonadFacts Proofs.K7.
 
 (* `$k` has the same value in both modes; out of range is UndefinedRegexCapture in both *)
 Theorem lazy_regex_capture_partial : forall t fl glob call fuel fuel' (le : lenv) (ll : llenv) i s p sl pl,
@@ -51,6 +51,21 @@ Theorem thunk_cycle_partial : forall t fl call fuel loc s p th,
   force_thunk t fl call (S fuel) loc s p = Err (EInContext (CtxStmts [th_dbg th]) ERecursivelyDefinedVariable).
 Proof.
   intros t fl call fuel loc s p th H1 H2. cbn [force_thunk]. unfold bind, get_state. rewrite H1. unfold ctx_wrap. rewrite H2. reflexivity.
+Qed.
+
+(* KNOWN FINDING K7: the full statement `strict_lazy_agree` is FALSE of the faithful model (and of the
+   implementation: the witness is replayed on it by `tsgv known K7`).  A file with no inherited and no
+   mutable scoped variables, no shorthands and no node rendering, on which strict execution returns a graph
+   and lazy execution fails with RecursivelyDefinedScopedVariable: the scope expression of one definition
+   of `a` reads `b` and the scope expression of the definition of `b` reads `a` (Proofs/K7.v). *)
+Theorem strict_lazy_agree_refuted_k7 : exists t fl smatches lmatches g,
+  f_inherited fl = [] /\ f_shorthands fl = [] /\
+  graph_of (run_strict t fl config0 [[]] None [] rx_captures (the_call t []) default_fuel smatches []) = Ok g /\
+  exists e, run_lazy t fl config0 [[]] None [] rx_captures (the_call t []) default_fuel lmatches [] = Err e /\
+            root_cause e = ERecursivelyDefinedScopedVariable.
+Proof.
+  exists k7_tree, k7_file, k7_smatches, k7_lmatches. eexists. split; [reflexivity|]. split; [reflexivity|].
+  split; [exact k7_strict_ok|exact k7_lazy_fails].
 Qed.
 
 Example c02_nonvacuous : nth_error [[97]; [98]] (N.to_nat 1) = Some [98] /\ nth_error [[97]; [98]] (N.to_nat 5) = None.
